@@ -306,6 +306,13 @@ func (s *Synchronizer) advanceView(syncInfo hotstuff.SyncInfo) {
 
 	newView := s.state.NextView()
 
+	if tc, ok := syncInfo.TC(); ok && tc.View()+1 == newView {
+		// Remember the (verified) timeout certificate of the view just left. It travels in the sync
+		// info of this replica's next timeout message, which is the only way a replica that missed a
+		// timeout of that view, and so never assembled the certificate itself, can leave the view.
+		s.state.UpdateHighTC(tc)
+	}
+
 	s.lastTimeout = nil
 	s.duration.ViewStarted()
 
